@@ -1,6 +1,7 @@
 package rules
 
 import (
+	"regexp"
 	"fmt"
 	"go/ast"
 	"go/token"
@@ -44,6 +45,7 @@ func runC20(p *core.Program, r *core.Report) {
 	c20R2(p, r)
 	c20R5(p, r, infl)
 	c20R6(p, r)
+	c20R7(p, r)
 	// determinism: no order source in the inflector packages
 	n := 0
 	for _, f := range p.Funcs() {
@@ -838,5 +840,106 @@ func c20R6(p *core.Program, r *core.Report) {
 	}
 	if n == 0 {
 		r.OK(rule, nil, "no memo is written in pkg/inflector", token.NoPos, "no mutating sync.Map call")
+	}
+}
+
+// c20R7: a rewriting rule whose pattern is anchored at the start of the text and spells a whole word (`(?i)^(ox)$`,
+// `(?i)^(ox)en`) only fires when that word is the whole input. "The word is inflected exactly as it is on its own"
+// then needs the word in the irregular table of the same rule set, which is what inflects a last word behind a prefix.
+var wholeWordRule = regexp.MustCompile(`^(?:\(\?[a-z]+\))?\^\(([A-Za-z]+)\)([A-Za-z]*)\$?$`)
+
+func c20R7(p *core.Program, r *core.Report) {
+	const rule = "R7"
+	r.Floor(rule, 2)
+	pkg := p.Pkg("pkg/inflector/internal")
+	if pkg == nil {
+		r.Anchor(rule, "pkg/inflector/internal")
+		return
+	}
+	info := pkg.TypesInfo
+	strs := func(cl *ast.CompositeLit) []string {
+		var out []string
+		for _, el := range cl.Elts {
+			if kv, ok := el.(*ast.KeyValueExpr); ok {
+				el = kv.Value
+			}
+			if s, isC := core.ConstString(info, el); isC {
+				out = append(out, s)
+			}
+		}
+		return out
+	}
+	n := 0
+	for _, file := range pkg.Syntax {
+		ast.Inspect(file, func(m ast.Node) bool {
+			cl, ok := m.(*ast.CompositeLit)
+			if !ok || core.NamedTypeName(info.TypeOf(cl)) != core.G("pkg/inflector/internal.Rule") {
+				return true
+			}
+			var rules, irregular *ast.CompositeLit
+			for _, el := range cl.Elts {
+				kv, isKV := el.(*ast.KeyValueExpr)
+				if !isKV {
+					continue
+				}
+				id, _ := kv.Key.(*ast.Ident)
+				v, _ := ast.Unparen(kv.Value).(*ast.CompositeLit)
+				if id == nil || v == nil {
+					continue
+				}
+				switch id.Name {
+				case "Rules":
+					rules = v
+				case "Irregular":
+					irregular = v
+				}
+			}
+			if rules == nil {
+				return true
+			}
+			words := map[string]bool{}
+			if irregular != nil {
+				for _, el := range irregular.Elts {
+					if item, isLit := ast.Unparen(el).(*ast.CompositeLit); isLit {
+						if ss := strs(item); len(ss) >= 1 {
+							words[strings.ToLower(ss[0])] = true
+						}
+					} else if u, isU := ast.Unparen(el).(*ast.UnaryExpr); isU {
+						if item, isLit := ast.Unparen(u.X).(*ast.CompositeLit); isLit {
+							if ss := strs(item); len(ss) >= 1 {
+								words[strings.ToLower(ss[0])] = true
+							}
+						}
+					}
+				}
+			}
+			for _, el := range rules.Elts {
+				item, isLit := ast.Unparen(el).(*ast.CompositeLit)
+				if !isLit {
+					if u, isU := ast.Unparen(el).(*ast.UnaryExpr); isU {
+						item, isLit = ast.Unparen(u.X).(*ast.CompositeLit)
+					}
+				}
+				if !isLit {
+					continue
+				}
+				ss := strs(item)
+				if len(ss) < 1 {
+					continue
+				}
+				mm := wholeWordRule.FindStringSubmatch(ss[0])
+				if mm == nil {
+					continue
+				}
+				n++
+				w := strings.ToLower(mm[1] + mm[2])
+				r.Check(words[w], rule, nil, "the whole-word rule "+strconvQuote(ss[0])+" is backed by an irregular entry for `"+w+"`", item.Pos(), "`"+w+"` is in the Irregular table of the same rule set",
+					"the rule "+strconvQuote(ss[0])+" only fires when `"+w+"` is the whole input, and `"+w+"` is not in the irregular table of its rule set: behind a prefix (\"red "+w+"\") the word falls to the general rules and is not inflected as it is on its own")
+			}
+			return true
+		})
+	}
+	if n == 0 {
+		r.OK(rule, nil, "no rule is anchored on a whole word", token.NoPos, "every rule is anchored at the end only")
 	}
 }
